@@ -8,6 +8,14 @@ NOTES = ("Driver: /verif/verif (python3, stdlib). Every check rebuilds harness/c
          "Known findings: /verif/KNOWN_FINDINGS.txt (read-only at run time). VERIF_SEED selects the rapid seeds; sweeps ignore it.")
 
 CLAIMED = {
+ "C10": dict(
+    technique="model-based testing of the stream (rapid scripts: frames x chunking x consumer x failure x GOMAXPROCS) against a de-framer reference model with multiset/subset oracles, under the race detector",
+    level_text="Generated scripts (1..400 well-formed frames of 8..6000 bytes incl. sizes around/above the pool buffers, arbitrary read chunking with forced cuts inside length prefixes, incomplete tails, slow consumers, connection failure after any byte, GOMAXPROCS 1..16) are played through a scripted in-memory connection; delivered messages must equal the complete frames as multisets (or be a sub-multiset after a failure, with exactly one error), nothing extra, and every delivered message's deep dump must be unchanged at the end. Both a copying parser (exact framing) and the real openflow13.Parse on conformant frames are used; built with -race.",
+    level_note="Goroutine interleavings are sampled, not enumerated; loss is observable only as non-arrival within 30 s; frames are well formed by the property's precondition."),
+ "C11": dict(
+    technique="property-based concurrency testing (rapid scripts: producers x messages x pacing x slow peer x GOMAXPROCS) with a byte-stream oracle (re-framing, multiset equality, per-producer order), under the race detector",
+    level_text="1..16 producer goroutines submit raw frames (8 B..60 KiB) and real library messages with xid = producer|sequence; the scripted connection records every write (instantly or as a slow peer). The concatenated bytes must re-frame by header length without remainder into exactly the submitted encodings (multiset), each once, with ascending sequence per producer.",
+    level_note="Schedules sampled; a writer that batches whole messages into one Write is accepted (the property is about the byte stream); write errors are outside the property."),
  "C12": dict(
     technique="property-based testing (rapid), metamorphic: parse, take deep dump and re-encoding, overwrite the input buffer four ways, require dump and re-encoding unchanged",
     level_text="Frames that Parse accepts - conformant frames of every switch-originated kind from the independent encoder (all payload and action kinds), the library's own encodings of every parseable controller-originated kind, and hostile mutants that still parse - are parsed; after the first re-encoding the deep dump (all fields, unexported included) and the re-encoding must survive overwriting the input with 0xff, zeros, its byte-wise inverse and a generated pattern.",
@@ -80,5 +88,4 @@ CLAIMED = {
 for k in CLAIMED:
     ENGINES[0]["serves_properties"].append(k)
 
-NOT_APPLICABLE = {p: "check under construction in this round (design in DESIGN.md section 10); not claimed until it runs clean on the unchanged tree"
-                  for p in ["C10","C11"]}
+NOT_APPLICABLE = {}
